@@ -31,6 +31,8 @@ pub struct Server {
     /// panics seen on request worker threads (answered with an error or not)
     pub worker_panics: Vec<PanicRecord>,
     pub timeout: Duration,
+    /// number of didChange notifications sent so far (drives the document version pattern)
+    did_changes: std::sync::atomic::AtomicU32,
 }
 
 #[derive(Debug, Clone)]
@@ -105,6 +107,7 @@ impl Server {
             extra_responses: vec![],
             worker_panics: vec![],
             timeout: Duration::from_secs(30),
+            did_changes: std::sync::atomic::AtomicU32::new(0),
         }
     }
 
@@ -143,6 +146,7 @@ impl Server {
             extra_responses: vec![],
             worker_panics: vec![],
             timeout: Duration::from_secs(30),
+            did_changes: std::sync::atomic::AtomicU32::new(0),
         }
     }
 
@@ -153,10 +157,15 @@ impl Server {
             .is_ok()
     }
 
+    /// The document version follows a fixed non-monotone pattern (1, 3, 5, 2, 4, 1, ...): editors
+    /// restart the counter when a buffer is closed and opened again, and the server (which handles
+    /// neither didOpen nor didClose) must apply every change it is sent.
     pub fn did_change(&self, key: &str, text: &str) -> bool {
+        let n = self.did_changes.fetch_add(1, std::sync::atomic::Ordering::Relaxed);
+        let version = (n * 2) % 5 + 1;
         self.notify(
             "textDocument/didChange",
-            json!({"textDocument": {"uri": uri_of(key), "version": 1}, "contentChanges": [{"text": text}]}),
+            json!({"textDocument": {"uri": uri_of(key), "version": version}, "contentChanges": [{"text": text}]}),
         )
     }
 
